@@ -141,6 +141,13 @@ def translate(lean_name, region, cpp, nparams, qrx, extra):
             pass
     if not cands:
         raise TranslateError(f"{REL}:{cpp}/{nparams} {qrx}: no definition found")
+    # an overload that merely forwards to the overload set of the same name with its own parameters (`&&` -> `&`) adds nothing
+    def forwards(f):
+        names = ",".join(n for n, _ in GL.param_names(f["params"]))
+        body = re.sub(r"\s+", "", f["body"])
+        return re.fullmatch(r"return(this->)?(template)?" + re.escape(cpp) + r"(<[^;]*>)?\(" + re.escape(names) + r"\);", body) is not None
+    if len(cands) > 1 and any(not forwards(f) for f in cands):
+        cands = [f for f in cands if not forwards(f)]
     out = []
     for fn in cands:
         it = CI(f"{REL}:{fn['line']}:{cpp}")
